@@ -8,7 +8,7 @@ From PyLib Require Import PyVal PyBuiltins Ideal.
 From Spec Require Import AngleSpec.
 From Gen Require Import M_base M_Angle M_Epoch M_Coordinates.
 From Gen Require M_Mercury M_Venus M_Earth M_Mars M_Jupiter M_Saturn M_Uranus M_Neptune.
-From Proofs.C07 Require Import C07_defs C07_lib C07_angle C07_series C07_corr C07_const.
+From Proofs.C07 Require Import C07_defs C07_lib C07_angle C07_sec C07_series C07_corr C07_const C07_elem.
 Import ListNotations.
 Open Scope R_scope.
 
@@ -72,12 +72,12 @@ Theorem C07_fk5_size : forall jde lon lat,
 Proof. exact fk5_size. Qed.
 
 (* 4. apparent_vsop_pos: (nutation in longitude, then) aberration -20.4898''/r added to the
-   FK5 longitude, reduced to [0, 360); latitude and radius untouched.  (r >= 0.35 AU.) *)
+   FK5 longitude, reduced to [0, 360); latitude and radius untouched.  (r >= 0.01 AU.) *)
 Theorem C07_aberration : forall jde lon lat r dpsi (L B Rr : list (val R)),
   f_geometric_vsop_pos Rops (ep jde) (VList L) (VList B) (VList Rr) (VBool true)
     = VTuple [ang lon; ang lat; VFloat r] ->
   f_nutation_longitude Rops (VTuple [ep jde]) (VDict []) = ang dpsi ->
-  35 / 100 <= r ->
+  1 / 100 <= r ->
   f_apparent_vsop_pos Rops (ep jde) (VList L) (VList B) (VList Rr) (VBool false)
     = VTuple [ang (pos360 (red360 (lon + aberration r))); ang lat; VFloat r] /\
   f_apparent_vsop_pos Rops (ep jde) (VList L) (VList B) (VList Rr) (VBool true)
@@ -87,7 +87,7 @@ Proof.
   intros jde lon lat r dpsi L B Rr Hg Hn Hr.
   split; [exact (apparent_no_nutation jde lon lat r L B Rr Hg Hr)|].
   split; [exact (apparent_nutation jde lon lat r dpsi L B Rr Hg Hn Hr)|].
-  apply aberration_eq. apply Rgt_not_eq. apply Rlt_le_trans with (35 / 100); [|exact Hr].
+  apply aberration_eq. apply Rgt_not_eq. apply Rlt_le_trans with (1 / 100); [|exact Hr].
   apply Rdiv_lt_0_compat; apply IZR_lt; reflexivity.
 Qed.
 
@@ -116,6 +116,27 @@ Theorem C07_earth_j2000_rate :
     Rabs (A / 100000000 * (180 / PI) / 10 - rate) <= 1 / 1000000 * rate.
 Proof. exact earth_j2000_rate. Qed.
 
+(* 6. orbital_elements: each element is the cubic polynomial (Horner form) of its table row in
+   T = (JDE - 2451545)/36525; argument of perihelion = longitude of perihelion - node; angles reduced.
+   6-row table for the mean equinox of date, 6-row + 4-row tables for J2000.
+   (Given that the module constant JDE2000 evaluates to 2451545: C07_jde2000.v, thorough tier.) *)
+Theorem C07_orbital_elements : JDE2000_is_2451545 ->
+  forall jde (rl ra re ri rn rp jl ji jn jp : row4),
+  let tbl := VList [enc_row rl; enc_row ra; enc_row re; enc_row ri; enc_row rn; enc_row rp] in
+  let tblj := VList [enc_row jl; enc_row ji; enc_row jn; enc_row jp] in
+  let T := (jde - 2451545) / 36525 in
+  f_orbital_elements Rops (ep jde) tbl tbl =
+    VTuple [ang (red360 (cubic rl T)); VFloat (cubic ra T); VFloat (cubic re T);
+            ang (red360 (cubic ri T)); ang (red360 (cubic rn T)); ang (red360 (cubic rp T - cubic rn T))] /\
+  f_orbital_elements Rops (ep jde) tbl tblj =
+    VTuple [ang (red360 (cubic jl T)); VFloat (cubic ra T); VFloat (cubic re T);
+            ang (red360 (cubic ji T)); ang (red360 (cubic jn T)); ang (red360 (cubic jp T - cubic jn T))].
+Proof.
+  intros Hj jde rl ra re ri rn rp jl ji jn jp. split.
+  - exact (orbital_elements_6 jde rl ra re ri rn rp Hj).
+  - exact (orbital_elements_4 jde rl ra re ri rn rp jl ji jn jp Hj).
+Qed.
+
 Redirect "C07_series_evaluator.assumptions" Print Assumptions C07_series_evaluator.
 Redirect "C07_horner_is_direct_sum.assumptions" Print Assumptions C07_horner_is_direct_sum.
 Redirect "C07_vsop_longitude_range.assumptions" Print Assumptions C07_vsop_longitude_range.
@@ -125,3 +146,4 @@ Redirect "C07_aberration.assumptions" Print Assumptions C07_aberration.
 Redirect "C07_corrected_longitude_range.assumptions" Print Assumptions C07_corrected_longitude_range.
 Redirect "C07_table_constants.assumptions" Print Assumptions C07_table_constants.
 Redirect "C07_earth_j2000_rate.assumptions" Print Assumptions C07_earth_j2000_rate.
+Redirect "C07_orbital_elements.assumptions" Print Assumptions C07_orbital_elements.
